@@ -157,9 +157,21 @@ def seed_specs(ctx, rng):
     return specs
 
 
+def label_specs(ctx, rng):
+    out = []
+    for _ in range(40 if ctx.quick else 600):
+        w = random_world(rng, n_modules=rng.randint(6, 18), n_imports=rng.randint(0, 15))
+        items = []
+        for k in range(5):
+            items += [it for it in c17.viz_items(rng, rng.sample(w.modules, min(rng.randint(1, 5), len(w.modules))), k0=k)
+                      if it["op"] == "viz"]
+        out.append({"driver": "labels", "world": w.json(), "render": "ident", "items": items})
+    return out
+
+
 def rule_order_specs(ctx, rng):
     out = []
-    for _ in range(60 if ctx.quick else 1000):
+    for _ in range(40 if ctx.quick else 1000):
         w = random_world(rng, n_modules=rng.randint(6, 16), n_imports=rng.randint(5, 40))
         ep = RuleEpisode(w)
         rules = rc.sampled_rules(rng, w.modules, 25, max_batch=2, strict_bias=0.5)
@@ -181,7 +193,7 @@ def rule_order_specs(ctx, rng):
 
 def order_specs(ctx, rng):
     out = []
-    for _ in range(60 if ctx.quick else 1000):
+    for _ in range(40 if ctx.quick else 1000):
         p = projgen.random_project(rng, max_depth=rng.choice([2, 3, 4]), n_stmts=rng.randint(6, 30), rel_abs=True)
         ep = sc.ScanEpisode(p)
         subs = [d for d in p["dirs"] if len(d) > 1]
@@ -273,7 +285,7 @@ def run(ctx):
     tlc.require_actions_taken(mc, ["DoNew", "DoApply", "DoGrow"], "MC_Session")
     fails, events, n_traces, tr_states, tr_trans = [], 0, 0, 0, 0
     # (R) long interleavings generated by TLC, replayed on shared real objects
-    hists, sim = simulated_histories(40, 6 if ctx.quick else 120, seed=ctx.seed + 7)
+    hists, sim = simulated_histories(40, 4 if ctx.quick else 120, seed=ctx.seed + 7)
     sspecs = [{"driver": "session", "modules": MODS, "layers": LAYERS, "hist": h} for h in hists]
     souts = runner.run_specs(sspecs)
     applies = 0
@@ -347,6 +359,25 @@ def run(ctx):
             fails.append({"prop": "C15", "clause": "rule-outcome-depends-on-evaluation-order", "detail": {"rules": bad[:5]},
                           "event": {"rule": bad[0], "first_order": oa[bad[0]], "other_order": ob.get(bad[0])},
                           "spec": {"driver": "rule-orders", "a": a_spec, "b": b_spec}, "episode_events": None})
+    # (O3) likewise for layer rules and visualize() calls: the episodes of the permutation part, items reversed
+    fam_order_diffs = 0
+    for specs_f, kind in ((lspecs, "leval"), (label_specs(ctx, rng), "viz")):
+        fa = runner.run_specs(specs_f)
+        rev = [dict(sp, items=[it for it in reversed(sp["items"]) if it["op"] != "law"]) for sp in specs_f]
+        fb = runner.run_specs(rev)
+        for sp, spr, ea, eb in zip(specs_f, rev, fa, fb):
+            oa, ob = {}, {}
+            for evs, o in ((ea, oa), (eb, ob)):
+                for e in evs:
+                    if e["k"] == kind:
+                        o.setdefault(e["rid"] + "@" + e["a"].split(".A")[-1], []).append(
+                            (e["out"], e.get("real"), e.get("miss"), e.get("labels")))
+            bad = sorted(k for k in oa if sorted(map(str, oa[k])) != sorted(map(str, ob.get(k, []))))
+            if bad:
+                fam_order_diffs += 1
+                fails.append({"prop": "C15", "clause": "outcome-depends-on-evaluation-order", "detail": {"calls": bad[:5]},
+                              "event": {"call": bad[0], "first_order": oa[bad[0]], "other_order": ob.get(bad[0])},
+                              "spec": {"driver": "family-orders", "a": sp, "b": spr, "kind": kind}, "episode_events": None})
     # (L) graph construction must not depend on the ORDER of the module list and the import list (which is what the
     # directory enumeration order turns into) - also when a package imports its own direct sub module, which real
     # scans produce for 'a.py' next to 'a/' (outside the scan generators' input language, so it is covered here)
@@ -366,7 +397,7 @@ def run(ctx):
            "traces_validated_against_impl": n_traces, "trace_events": events,
            "simulated_histories": len(hists), "history_length": 40, "applies_compared_with_isolated_evaluation": applies,
            "same_law_instances": laws, "hash_seeds": SEEDS, "episodes_per_seed": len(hspecs),
-           "seed_differences": seed_diffs, "listing_order_cases": listing_cases, "rule_order_pairs": len(rpairs), "rule_order_differences": rule_order_diffs, "scan_order_pairs": len(ospecs), "scan_order_differences": order_diffs, "evaluations": applies + laws + len(hspecs) * len(SEEDS),
+           "seed_differences": seed_diffs, "listing_order_cases": listing_cases, "layer_and_label_order_differences": fam_order_diffs, "rule_order_pairs": len(rpairs), "rule_order_differences": rule_order_diffs, "scan_order_pairs": len(ospecs), "scan_order_differences": order_diffs, "evaluations": applies + laws + len(hspecs) * len(SEEDS),
            "distinct_applies_on_nonempty_architectures": len(distinct_applies),
            "distinct_nontrivial": len(distinct_applies) + laws,
            "rule": "one case = one Apply inside a 40-step history (compared with the isolated evaluation), one "
@@ -390,6 +421,19 @@ def replay(ctx, rp):
                 tr = trace.validate([out[fam]], f"{module}.tla", f"{module}.cfg", procs=1)
                 fails += attach(tr, [spec], [out[fam]]); n += tr.events
         return CheckResult(fails=fails, coverage={"replayed_events": n})
+    if spec["driver"] == "family-orders":
+        kind = spec["kind"]
+        ea, eb = runner.run_specs([spec["a"]], 1)[0], runner.run_specs([spec["b"]], 1)[0]
+        oa, ob = {}, {}
+        for evs, o in ((ea, oa), (eb, ob)):
+            for e in evs:
+                if e["k"] == kind:
+                    o.setdefault(e["rid"] + "@" + e["a"].split(".A")[-1], []).append(
+                        (e["out"], e.get("real"), e.get("miss"), e.get("labels")))
+        bad = sorted(k for k in oa if sorted(map(str, oa[k])) != sorted(map(str, ob.get(k, []))))
+        fails = [{"prop": "C15", "clause": "outcome-depends-on-evaluation-order", "detail": {"calls": bad[:5]},
+                  "event": None, "spec": spec, "episode_events": None}] if bad else []
+        return CheckResult(fails=fails, coverage={"replayed_calls": len(oa)})
     if spec["driver"] == "rule-orders":
         ea, eb = runner.run_specs([spec["a"]], 1)[0], runner.run_specs([spec["b"]], 1)[0]
         oa = {e["rid"]: (e["out"], e["real"], e["miss"]) for e in ea if e["k"] == "eval"}
